@@ -17,6 +17,16 @@ KANI_NOTE = 'trusts Kani/CBMC and the documented-alphabet oracles in laws/laws.r
 B_NOTE = 'assumes the bitvec contracts of layer B (external_body shims, sanity-checked natively but not proved), the repr(transparent) cast (R5) and the Codec laws proved per codec by Kani'
 
 PROPS = {
+    'C01': dict(
+        level='other',
+        level_text='mixed: (proved) Kani proves the per-byte codec laws L1-L8 for all 256 bytes x 7 codecs x both debug-assertion settings; Verus proves push (appends exactly the code of the symbol), new, nth/SeqIter::next (decode of the i-th code) and the specification-level round trip (parse_all/display_all lemmas over the laws); (bounded, not proof) the iterator-adapter glue of the parsing/display entry points is covered by a bounded stand-in on the real crate',
+        level_note=B_NOTE + '; ' + KANI_NOTE + '; assumption stated in evidence: map/collect/for_each adapters fold push/next in order and short-circuit on the first Err',
+        technique='Kani (complete over u8) + Verus contracts and lemmas; bounded stand-in for iterator glue (labelled bounded)',
+        explanation='obligations/discharged count the Kani checks and Verus verification conditions only; the stand-in (all byte strings of length <= 3 over valid/invalid characters + word-boundary lengths, every entry point) is reported under bounded_standins and is not a proof',
+        verus=[dict(name='c01', mode='T', roots=['seq.push', 'seq.new', 'seq.with_capacity', 'slice.nth', 'iter.seqiter.next', 'iter.into_iter', 'lemma_parse_display'])],
+        kani=dict(quick=['codec_ascii_' + c for c in CODECS] + ['codec_rows_' + c for c in CODECS], profiles=['debug', 'release']),
+        standin=True, standin_both_profiles=True,
+    ),
     'C02': dict(
         level='proof',
         level_text='Verus proves every PartialEq impl between Seq/SeqSlice/&SeqSlice/Kmer (equal exactly when the bit views are equal; lemma: equal bits <=> equal length and symbols), the Hash impls against a ghost hasher log written from the property (content bits then length; a k-mer feeds the same log as its slice) and Borrow/AsRef consistency, generic in codec, K, storage and offset',
@@ -34,7 +44,7 @@ PROPS = {
             dict(name='c03', mode='T', roots=INDEX + ['slice.len', 'slice.is_empty', 'slice.nth', 'slice.get', 'seq.deref', 'seq.as_ref', 'seqarray.deref']),
             dict(name='c03', mode='R', roots=INDEX + ['slice.len', 'slice.is_empty', 'slice.nth', 'slice.get', 'slice.into_u8']),
         ],
-        standin=True,
+        standin=True, standin_both_profiles=True,
     ),
     'C04': dict(
         level='proof',
@@ -69,6 +79,16 @@ PROPS = {
         ],
         standin=True,
     ),
+    'C07': dict(
+        level='other',
+        level_text='mixed: (proved) Kani proves on the real codecs that symbol complement is the documented involution for Dna, Iupac, masked Dna/Iupac and degenerate; Verus proves the bit-level lemma that reversing all bits and then each BITS-wide chunk reverses the symbol list, and the chunk-wise map lemma; (bounded, plan B) the in-place loops ReverseMut::rev / ComplementMut::comp over bitvec chunk iterators and the to_* wrappers are covered by a bounded stand-in on the real crate',
+        level_note=B_NOTE + '; ' + KANI_NOTE + '; loop contracts of rev/comp are NOT proved (plan B of DESIGN.md section 6): Verus has no usable spec for bitvec mutable chunk iterators on this image',
+        technique='Kani (complete over symbols) + Verus bit-level lemmas; bounded stand-in for the in-place loops (labelled bounded)',
+        explanation='obligations/discharged count Kani checks and Verus lemma verification conditions only; the loops are exercised by the stand-in: all lengths 0..4 (thorough 0..8) and word-straddling lengths at every start offset, every codec',
+        verus=[dict(name='c07', mode='T', roots=['lemma_rev_bits'])],
+        kani=dict(quick=['complement_' + c for c in ['dna', 'iupac', 'masked_dna', 'masked_iupac', 'degenerate']], profiles=['debug', 'release'], quick_profiles=['debug']),
+        standin=True,
+    ),
     'C08': dict(
         level='proof',
         level_text='Verus proves KmerIter::next (yields the k-mer with symbols index..index+K in canonical form, None exactly when index+K > n), kmers(), unsafe_from, TryFrom<&SeqSlice> (Ok exactly for length K, MismatchedLength otherwise), Deref for Kmer and the k-mer/sequence equality impls, generic in codec, K and storage',
@@ -83,6 +103,18 @@ PROPS = {
         level_note=B_NOTE + '; ' + KANI_NOTE,
         technique='deductive verification (Verus) for rotate/push; Kani over the full usize domain for word-level comp/rev',
         verus=[dict(name='c09', mode='T', roots=['kmer.rotate', 'kmer.push'])],
+        kani=dict(quick=['kmer_dna_ops_k%d' % k for k in (1, 2, 5, 16, 31, 32)] + ['kmer_rev_iupac_k2', 'kmer_rev_iupac_k16', 'kmer_rev_amino_k3', 'kmer_rev_amino_k10', 'kmer_rev_text_k1', 'kmer_rev_text_k8', 'kmer_rev_masked_iupac_k12', 'kmer_rev_degenerate_k7', 'kmer_rev_dna_k9'],
+                  thorough=['kmer_dna_ops_k%d' % k for k in range(1, 33)] + ['kmer_rev_iupac_k5'],
+                  profiles=['debug', 'release'], quick_profiles=['debug']),
+    ),
+    'C10': dict(
+        level='proof',
+        level_text='Kani proves on the compiled crate that the derived Ord/PartialOrd/Eq of Kmer is exactly the numeric order of the packed integer (total, transitive, consistent with ==, min/max) for usize, u64 and u128 storage over the full integer domain; Verus proves the pure lemma that numeric order of canonical values is colexicographic order of the symbol codes (last differing symbol decides)',
+        level_note=KANI_NOTE + '; Iterator::min over kmers() is std glue (assumed); the documented claim that equal-length owned sequences order the same way does NOT hold (known finding F8: Seq orders bit-lexicographically) and is reported as KNOWN-FINDING with its behaviour contract checked',
+        technique='Kani over the full usize/u64/u128 domain + Verus induction lemma (colex = numeric)',
+        verus=[dict(name='c10', mode='T', roots=['lemma_colex'])],
+        kani=dict(quick=['kmer_ord_dna_k5', 'kmer_ord_dna_k32', 'kmer_ord_text_k3', 'kmer_ord_miupac_k12_u64', 'kmer_ord_dna_k40_u128'], profiles=['debug']),
+        standin=True,
     ),
     'C11': dict(
         level='proof',
@@ -112,6 +144,27 @@ PROPS = {
         standin=True,
     ),
 }
+
+PROPS.update({
+    'C19': dict(
+        level='other',
+        level_text='mixed: (proved) Kani proves the symbol conversions Dna->Iupac, Dna->text (letter kept) and text->Dna (succeeds exactly for A,C,G,T, names the byte otherwise) for all 256 bytes; (bounded) sequence conversion and trim_u8 are iterator-adapter glue (position/rposition/map/collect) covered by a bounded stand-in on the real crate',
+        level_note=KANI_NOTE + '; trim_u8 and From<&SeqSlice<A>> for Seq<B> cannot be brought into Verus (closures, iterator adapters) nor Kani (bitvec cost)',
+        technique='Kani (complete over u8) for symbol conversions; bounded stand-in for trim/convert glue (labelled bounded)',
+        explanation='obligations count Kani checks only; stand-in: all byte strings of length <= 5 over {2 acceptable, 2 unacceptable} x 7 codecs for trim_u8, all DNA sequences of length <= 5 at random offsets for conversion',
+        kani=dict(quick=['conversions', 'codec_ascii_text', 'codec_rows_text', 'codec_rows_iupac', 'codec_rows_dna'], profiles=['debug', 'release'], quick_profiles=['debug']),
+        standin=True,
+    ),
+    'C20': dict(
+        level='other',
+        level_text='mixed: (proved) Kani proves every symbol-level clause for all 32 masked-IUPAC and 14 masked-DNA symbols (case forms, idempotence/involution, unmask o mask = unmask, nucleotide set unchanged, commutes with complement, gap/pad fixed); (bounded, plan B) the sequence-level loops MaskableMut for Seq and to_mask/to_unmask are covered by a bounded stand-in including 5-bit symbols straddling 64-bit words',
+        level_note=KANI_NOTE + '; loop contracts of mask/unmask on Seq are not proved (same obstacle as C07)',
+        technique='Kani (complete over symbols); bounded stand-in for the in-place loops (labelled bounded)',
+        explanation='obligations count Kani checks only; stand-in lengths 0,1,2,3,12,13,14,25,26,38,39,51,52,64,70',
+        kani=dict(quick=['mask_iupac', 'mask_dna', 'complement_masked_dna', 'complement_masked_iupac', 'codec_contract_masked_dna', 'codec_contract_masked_iupac'], profiles=['debug', 'release'], quick_profiles=['debug']),
+        standin=True,
+    ),
+})
 
 NOT_APPLICABLE = {
     'C14': 'deciding facts are table data built at first use in OnceLock statics from proc-macro literals and a std HashMap; no contract within reach of Verus (no proc-macro expansion, no OnceLock/HashMap specs) or Kani (bitvec cost) decides soundness/completeness against the genetic code (DESIGN.md section 6)',
